@@ -34,8 +34,13 @@ void vp_c18_key_str(char *out, uint32_t code) { ASSUME(code == 'X' || (code >= '
 /* only MODEL blocks carry a code: a model block that is not exactly one unit long has code 0 (it equals no universe element);
    anything else (static literal, foreign block) is C18_UNKNOWN: callers fall back to the generic comparison or flag a model limit */
 #define C18_UNKNOWN 0xFFFFFFFFu
-static uint32_t c18_code16(QAD *d) { if (d->f3 != QS_OFF) return C18_UNKNOWN; if (d->f1 != 1) return 0; return SD(d)[0]; }
-static uint32_t c18_code8(QAD *d) { if (d->f3 != QB_OFF) return C18_UNKNOWN; if (d->f1 != 1) return 0; return BD(d)[0]; }
+/* cbmc's value sets are per object, not per field: a pointer loaded from a slot that holds strings may, as far as symex knows,
+   also denote a byte-array block stored elsewhere in the same object (and vice versa).  Such alternatives are infeasible; they get
+   code 0 here instead of a generic comparison over a mistyped block, and an assertion makes sure they really are infeasible. */
+static uint32_t c18_code16(QAD *d) { if (d->f1 == 0) return 0; if (d->f3 == QS_OFF) return d->f1 == 1 ? SD(d)[0] : 0;
+  if (d->f3 == QB_OFF) { ASSERT(0, "C18: byte-array block where a string is expected"); return 0; } return C18_UNKNOWN; }
+static uint32_t c18_code8(QAD *d) { if (d->f1 == 0) return 0; if (d->f3 == QB_OFF) return d->f1 == 1 ? BD(d)[0] : 0;
+  if (d->f3 == QS_OFF) { ASSERT(0, "C18: string block where a byte array is expected"); return 0; } return C18_UNKNOWN; }
 uint32_t vp_c18_jid_code(char *s) { return c18_code16(*(QAD**)s); }
 uint32_t vp_c18_key_code(char *s) { return c18_code8(*(QAD**)s); }
 
@@ -63,7 +68,10 @@ uint32_t vp_c18_list_key(char *l, uint32_t j) { struct ld *d = LD(l); ASSUME(j <
 #else
 #define C18_IS_NULL_LIST(d) 0
 #endif
-static QAD *c18_empty_qb, *c18_empty_qs;   /* fillers: empty MODEL blocks */
+static QAD *c18_empty_qb, *c18_empty_qs;   /* fillers: empty MODEL blocks; their length hint is 1 like that of the universe strings, so that loop bounds
+   of the string model stay constant when a pointer is a merge of universe strings and fillers */
+void vp_c18_empty_str(char *out) { *(QAD**)out = c18_empty_qs; }
+void vp_c18_empty_bytes(char *out) { *(QAD**)out = c18_empty_qb; }
 static char *c18_dummy_owner;              /* filler: d pointer of a default-constructed QXmppTrustMessageKeyOwner */
 void vp_c18_set_dummy_owner(char *o) { c18_dummy_owner = *(char**)o; }
 char* vp_c18_list_owner(char *l, uint32_t j) { struct ld *d = LD(l); ASSUME(j < LIST_CAP); return (char*)&d->array[j]; }
@@ -81,7 +89,7 @@ static void c18_list_detach(int kind, char *self, int force) { struct ld *d = LD
 static void c18_list_append_d(int kind, char *self, char *x) { c18_list_detach(kind, self, 0); struct ld *d = LD(self); uint32_t e = d->end;
   ASSERT(e < LIST_CAP, "QList capacity of the model exceeded"); ASSUME(e < LIST_CAP); d->array[e] = c18_elem_ref(kind, x); d->end = e + 1; }
 void vp_c18_init(void) { c18_uo[0] = c18_mk16('o'); c18_uo[1] = c18_mk16('c'); c18_uk[0] = c18_mk8('A'); c18_uk[1] = c18_mk8('B'); c18_uk[2] = c18_mk8('C'); c18_uk[3] = c18_mk8('D'); c18_uk[4] = c18_mk8('X');
-  c18_empty_qb = qb_new(0, 0); REF(c18_empty_qb) = (uint32_t)-1; c18_empty_qs = qs_new(0, 0); qs_seal(c18_empty_qs, 0); REF(c18_empty_qs) = (uint32_t)-1; }
+  c18_empty_qb = qb_new(0, 1); REF(c18_empty_qb) = (uint32_t)-1; c18_empty_qs = qs_new(0, 1); qs_seal(c18_empty_qs, 0); REF(c18_empty_qs) = (uint32_t)-1; }
 void _ZN5QListI10QByteArrayE6appendERKS0_(char *self, char *t) { c18_list_append_d(C18_B, self, *(char**)t); }
 void _ZN5QListI10QByteArrayE13detach_helperEi(char *self, uint32_t alloc) { c18_list_detach(C18_B, self, 1); }
 void _ZN5QListI10QByteArrayE13detach_helperEv(char *self) { c18_list_detach(C18_B, self, 1); }
